@@ -194,6 +194,46 @@ def run(ctx):
             for k in list(sys.modules):
                 if k.split(".")[0] == pkg:
                     del sys.modules[k]
+    # the end of the file: the module is saved without a final newline and its last definition is a kept function (or feeds one);
+    # an unrelated definition, a comment or just the final newline added after it changes nothing that function can observe
+    NSRC = ("import dds\nfrom ddsverif_rt import log, term\n\n"
+            "def f0():\n    return term('f0', dds.keep('/n/base', base), dds.keep('/n/summary', summary))\n\n"
+            "def base():\n    log('base')\n    return term('base')\n\n"
+            "def summary():\n    log('summary')\n    return term('summary', helper())\n\n"
+            "def helper():\n    return term('helper')")
+    for ni, store_kind in enumerate(["memory", "local"]):
+        nbase = tempfile.mkdtemp(prefix="ddsverif_c02n_")
+        pkg = "c2n_%d_%d" % (os.getpid(), ni)
+        try:
+            real.reset_process_state()
+            real.set_store(store_kind, os.path.join(nbase, "si"), os.path.join(nbase, "sd"))
+            tails = ["", "\n", "\n\n\ndef unrelated():\n    return 1", "\n\n\ndef unrelated():\n    return 1\n", "\n# a comment", "", "\n\nUNRELATED = 3"]
+            for si, tail in enumerate(tails):
+                src = NSRC + tail
+                os.makedirs(os.path.join(nbase, pkg), exist_ok=True)
+                open(os.path.join(nbase, pkg, "__init__.py"), "w").close()
+                with open(os.path.join(nbase, pkg, "main.py"), "w", newline="") as fh:
+                    fh.write(src)
+                real.load_world(nbase, pkg + ".main", None, accept=pkg)
+                r = real.run({"kind": "eval", "fun": "f0"})
+                res.evaluations += 1
+                res.count("end_of_file_steps")
+                res.nontrivial("end of file %s %d" % (store_kind, si))
+                ran = [x for x in r["log"] if x in ("base", "summary")]
+                bad = None
+                if r["error"] is not None or r["value"] != "f0(base(),summary(helper()))":
+                    bad = "value %r (error %s)" % (r["value"], r["error"])
+                elif si > 0 and ran:
+                    bad = "%s re-executed after the text %r was put in place of %r at the end of the file, after the last definition (a function that the kept functions use)" % (
+                        ran, tail, tails[si - 1])
+                if bad:
+                    res.violations.append({"what": "a module saved without a final newline: " + bad, "input": {"source": src, "step": si, "store": store_kind}, "kf": None})
+                    break
+        finally:
+            shutil.rmtree(nbase, ignore_errors=True)
+            for k in list(sys.modules):
+                if k.split(".")[0] == pkg:
+                    del sys.modules[k]
     from . import kf_witnesses
     kf_witnesses.run_witness(res, "C02-KF1", kf_witnesses.c02_from_import_object,
                              "a function reading a non-accepted object imported with 'from m import obj' is recomputed when its file is copied to another accepted module")
